@@ -149,6 +149,9 @@ class SharedJoin(MVPN):
                 5,
                 f'Invalid C-Multicast Route length ({int(groupiplen * 8)} bits). Expected 32 bits (IPv4) or 128 bits (IPv6).',
             )
+        if cursor + 1 + int(groupiplen) != len(packed):
+            # a 128 bit group length in front of the 4 octets which are left is not a 32 bit group
+            raise Notify(3, 5, 'the source and group lengths do not add up to the length of the route')
 
         return cls(packed, afi)
 
